@@ -144,7 +144,16 @@ def run_case(kind, n, incs, exps, zsk, pol_kw, now=NOW, shuffle=False, desc=None
             rep.violation("impl-vs-spec", f"{kind}: the request policy written in the configuration file is not the one loaded: {[(f, pol_kw[f], getattr(pol, f)) for f in diff_][:4]}",
                           {"kind": kind, "options": {k: str(v) for k, v in pol_kw.items()}, "loaded": {f: str(getattr(pol, f)) for f in diff_}})
     PinnedDT.pinned = now
-    req = request_from_xml(xml)
+    lr_ = vlib.run_impl(request_from_xml, xml)
+    if lr_[0] != "ok":
+        # the document itself is refused before any policy is consulted: a rejection no switch can turn off
+        srt_ = sorted(((b["exp"], b["inc"], b["id"]) for b in bundles))
+        if spec(now, pol, zsk, [(i, e) for (e, i, _) in srt_]):
+            rep.violation("impl-vs-spec", f"{kind}: the KSR is refused while it is read ({lr_[2]}) although the documented region says accept under this policy",
+                          {"kind": kind, "inc": [ksrxml.fmt_dt(x) for x in incs], "exp": [ksrxml.fmt_dt(x) for x in exps], "policy": {k: str(v) for k, v in pol_kw.items()}, **(desc or {})})
+        hist[kind] = hist.get(kind, 0) + 1
+        return
+    req = lr_[1]
     r = vlib.run_impl(validate_request, req, pol)
     impl_accept = r[0] == "ok"
     srt = sorted(((b["exp"], b["inc"], b["id"]) for b in bundles))
@@ -315,6 +324,19 @@ try:
             run_case("config-file-flag-off-" + rule, n, incs, exps, zsk, kw, now, desc={"flag_off_in_file": off, "rule": rule}, via_config=True)
     run_case("config-file-zero-values", 1, *baseline(1, validity=D(days=19)), zsk_for(False), pol_for(1, None, min_cycle_inception_length=D(0), max_cycle_inception_length=D(0), min_bundle_interval=D(0)),
              NOW, via_config=True)
+
+    # B00. zero-length and inverted bundles: with every timing check off nothing about them is checked; with only the validity check on, a bundle of
+    #      length zero is inside a declared [PT0S, P21D]
+    for n in (1, 3):
+        for kind_, dlt in (("zero-length", D(0)), ("inverted-by-a-second", D(seconds=-1)), ("inverted-by-a-day", D(days=-1))):
+            for j in sorted({0, n - 1}):
+                incs, exps = baseline(n, validity=D(days=19))
+                exps[j] = incs[j] + dlt
+                run_case("all-timing-checks-off-" + kind_, n, incs, exps, zsk_for(False), pol_for(n, set()), NOW, desc={"bundle": j, "flags_on": []})
+        incs, exps = baseline(n, validity=D(days=19))
+        exps[n - 1] = incs[n - 1]
+        zsk0 = ksrxml.default_zsk_policy(min_validity=D(0), max_validity=D(days=21), min_overlap=D(days=9), max_overlap=D(days=12))
+        run_case("zero-length-under-declared-minimum-PT0S", n, incs, exps, zsk0, pol_for(n, {"signature_validity_match_zsk_policy"}), NOW, desc={"flags_on": ["signature_validity_match_zsk_policy"]})
 
     # B. all 2^5 flag subsets on a reduced lattice (one rule violated at a time)
     for mask in range(32):
